@@ -693,9 +693,13 @@ func (ex *Exec) call(st *State, c *ssa.Call) {
 		args = append(args, ex.val(st, a))
 		argTypes = append(argTypes, a.Type())
 	}
-	ord := ex.ordinal[c]
-	cname := con.Name
-	ex.applyContract(st, c, con, bindings, args, fmt.Sprintf("call#%d:%s", ord, cname), cc.Value)
+	// obligations of a call are named by the callee's name and its per-name ordinal (call:Parse#1), which
+	// unrelated edits of the function do not shift
+	tag := ex.nameAnchor[c]
+	if tag == "" {
+		tag = fmt.Sprintf("call#%d:%s", ex.ordinal[c], con.Name)
+	}
+	ex.applyContract(st, c, con, bindings, args, tag, cc.Value)
 }
 
 // expandContract: the contract followed by everything it includes (transitively).
